@@ -629,6 +629,99 @@ def f(k):
 """, False)
 
 
+# --- conditional definitions ------------------------------------------------------------------------------------------------------
+P("definition-chosen-once", """
+def f(chunk, swap, tobytes):
+    def export():
+        if swap:
+            chunk.byteswap()
+            data = tobytes()
+            chunk.byteswap()
+            return data
+        return tobytes()
+    return export
+""", """
+def f(chunk, swap, tobytes):
+    if swap:
+        def export():
+            chunk.byteswap()
+            data = tobytes()
+            chunk.byteswap()
+            return data
+    else:
+        export = tobytes
+    return export
+""", True)
+P("definition-chosen-once-flag-rebound", """
+def f(chunk, swap, tobytes, later):
+    def export():
+        if swap:
+            chunk.byteswap()
+        return tobytes()
+    swap = later
+    return export
+""", """
+def f(chunk, swap, tobytes, later):
+    if swap:
+        def export():
+            chunk.byteswap()
+            return tobytes()
+    else:
+        export = tobytes
+    swap = later
+    return export
+""", False)
+# --- return after a with block -------------------------------------------------------------------------------------------------------
+P("return-of-a-name-after-with", """
+def f(self, audio):
+    with self.lock:
+        t = make(self, audio)
+        self.threads.append(t)
+        return t
+""", """
+def f(self, audio):
+    with self.lock:
+        t = make(self, audio)
+        self.threads.append(t)
+    return t
+""", True)
+P("return-of-a-call-after-with", """
+def f(self, audio):
+    with self.lock:
+        t = make(self, audio)
+        return wrap(t)
+""", """
+def f(self, audio):
+    with self.lock:
+        t = make(self, audio)
+    return wrap(t)
+""", False)
+# --- super() proxies -----------------------------------------------------------------------------------------------------------------
+P("super-proxy-kept-in-a-local", """
+def f(self, key, value):
+    del self._keys[key]
+    super(MK, self).__delitem__(key)
+    super(MK, self).__setitem__(key, value)
+""", """
+def f(self, key, value):
+    base = super(MK, self)
+    del self._keys[key]
+    base.__delitem__(key)
+    base.__setitem__(key, value)
+""", True)
+P("attribute-kept-in-a-local-across-a-write", """
+def f(self, key, value):
+    del self._keys[key]
+    self._keys.__delitem__(value)
+""", """
+def f(self, key, value):
+    keys = self._keys
+    self._keys = {}
+    del keys[key]
+    keys.__delitem__(value)
+""", False)
+
+
 def main():
     bad = 0
     for name, a, b, want in PAIRS:
